@@ -1099,7 +1099,7 @@ theorem transfer_sites (M M' : Kind → Cat → Mode) (fuel : Nat) :
   | .wrap k s, ag => by
     intro h i
     simp only [sitesOf] at ag
-    simp only [transfer, show M k s.cat = M' k s.cat from ag.head]
+    simp only [transfer, show M k s.wcat = M' k s.wcat from ag.head]
     exact c19_nodeWrap_congr _ _ (transfer_sites M M' fuel s ag.tail) h i
   | .wrapN k p opts, ag => by
     intro h i
@@ -1119,7 +1119,7 @@ theorem transferOpts_sites (M M' : Kind → Cat → Mode) (fuel : Nat) (k : Kind
   | s :: rest, ag => by
     intro n h i
     simp only [sitesOfOpts] at ag
-    simp only [transferOpts, show M k s.cat = M' k s.cat from ag.head]
+    simp only [transferOpts, show M k s.wcat = M' k s.wcat from ag.head]
     exact c19_optStep_congr (c19_nodeWrap_congr _ _ (transfer_sites M M' fuel s ag.tail.left))
       (transferOpts_sites M M' fuel k fb rest ag.tail.right) n h i
 theorem transferFields_sites (M M' : Kind → Cat → Mode) (fuel : Nat) :
@@ -1132,6 +1132,112 @@ theorem transferFields_sites (M M' : Kind → Cat → Mode) (fuel : Nat) :
     simp only [transferFields]
     exact c19_fieldStep_congr name (transfer_sites M M' fuel s ag.left) (transferFields_sites M M' fuel rest ag.right) h its
 end
+
+/-! ## a whole immutable class: every field behind the owner's copy -/
+
+def allOwned : List (String × Shape) → Bool
+  | [] => true
+  | (_, .owned _) :: rest => allOwned rest
+  | _ => false
+
+/-- plain caller data: every value is a scalar or a non-exempt object that exists already -/
+def PlainItems (h : Heap) (its : List (String × Item)) : Prop :=
+  ∀ p, p ∈ its → (∃ v, p.2 = .atom v) ∨ (∃ a, p.2 = .ref a ∧ a < h.next ∧ ownerExempt h p.2 = false)
+
+theorem PlainItems.frame {h h' : Heap} {its : List (String × Item)} (pl : PlainItems h its) (fr : Frame h h') :
+    PlainItems h' its := by
+  intro p hp
+  cases pl p hp with
+  | inl hv => exact Or.inl hv
+  | inr hr =>
+    obtain ⟨a, e, ha, hx⟩ := hr
+    refine Or.inr ⟨a, e, Nat.lt_of_lt_of_le ha fr.1, ?_⟩
+    rw [e] at hx ⊢
+    simp only [ownerExempt] at hx ⊢
+    rw [fr.2 a ha]; exact hx
+
+theorem c19_ownedFields_fresh (n0 : Nat) (M : Kind → Cat → Mode) (fuel : Nat)
+    (hm : (M .owner .none).ownerCopies = true) :
+    (fs : List (String × Shape)) → allOwned fs = true →
+      ∀ h its h' r, n0 ≤ h.next → NewClosed n0 h → PlainItems h its →
+        transferFields M fuel fs h its = (h', some r) → NewClosed n0 h' ∧ ItemsIn n0 h' r
+  | [], _ => by
+    intro h its h' r le nc _ e
+    simp only [transferFields, Prod.mk.injEq, Option.some.injEq] at e
+    rw [← e.1, ← e.2]; exact ⟨nc, fun p hp => nomatch hp⟩
+  | (name, .owned s) :: rest, ho => by
+    intro h its h' r le nc pl e
+    simp only [allOwned] at ho
+    simp only [transferFields, fieldStep] at e
+    cases hl : lookupItem name its with
+    | none =>
+      rw [hl] at e
+      exact c19_ownedFields_fresh n0 M fuel hm rest ho h its h' r le nc pl e
+    | some it =>
+      rw [hl] at e
+      simp only at e
+      obtain ⟨k0, hmem⟩ := c19_lookupItem_mem hl
+      cases h1 : transfer M fuel (.owned s) h it with
+      | mk h1' o =>
+        rw [h1] at e
+        cases o with
+        | none => simp at e
+        | some it' =>
+          simp only at e
+          have fr1 := transfer_frame M fuel (.owned s) h it h1' _ h1
+          have s1 : NewClosed n0 h1' ∧ ItemIn n0 h1' it' := by
+            cases pl (k0, it) hmem with
+            | inl hv =>
+              obtain ⟨v, ev⟩ := hv
+              simp only at ev
+              exact transfer_keep n0 M fuel (.owned s) h it h1' it' le nc (by rw [ev]; exact itemIn_atom _ _ _) h1
+            | inr hr =>
+              obtain ⟨a, _, _, hx⟩ := hr
+              exact owned_fresh n0 M fuel s hm h it hx h1' it' le nc h1
+          cases h2 : transferFields M fuel rest h1' its with
+          | mk h2' o2 =>
+            rw [h2] at e
+            cases o2 with
+            | none => simp at e
+            | some r2 =>
+              simp only [Prod.mk.injEq, Option.some.injEq] at e
+              have fr2 := transferFields_frame M fuel rest _ _ _ _ h2
+              have s2 := c19_ownedFields_fresh n0 M fuel hm rest ho h1' its h2' r2 (Nat.le_trans le fr1.1) s1.1
+                (pl.frame fr1) h2
+              rw [← e.1, ← e.2]
+              refine ⟨s2.1, ?_⟩
+              intro p hp
+              cases hp with
+              | head => exact s1.2.mono fr2.1
+              | tail _ hp' => exact s2.2 p hp'
+  | (_, .scalar _) :: _, ho => by simp [allOwned] at ho
+  | (_, .any) :: _, ho => by simp [allOwned] at ho
+  | (_, .untyped) :: _, ho => by simp [allOwned] at ho
+  | (_, .coll _ _) :: _, ho => by simp [allOwned] at ho
+  | (_, .keyed _ _) :: _, ho => by simp [allOwned] at ho
+  | (_, .wrap _ _) :: _, ho => by simp [allOwned] at ho
+  | (_, .wrapN _ _ _) :: _, ho => by simp [allOwned] at ho
+
+/-- **a whole immutable class**: the class's fields all sit behind the owner's copy, the owner row copies, the
+    top-level container (kwargs / document) is rebuilt — then, for ANY rows of the fields below and plain caller data,
+    the instance lies entirely in the freshly allocated region -/
+theorem immutable_class_fresh (M : Kind → Cat → Mode) (fuel : Nat) (fs : List (String × Shape))
+    (ho : allOwned fs = true) (hm : (M .owner .none).ownerCopies = true) (hroot : M .root .none = .rebuild)
+    (h : Heap) (a : Nat) (pl : PlainItems h (h.cells a).items) (h' : Heap) (inst : Item)
+    (e : transfer M fuel (.keyed .root fs) h (.ref a) = (h', some inst)) :
+    NewClosed h.next h' ∧ ItemIn h.next h' inst := by
+  simp only [transfer, hroot, nodeRec] at e
+  cases h1 : transferFields M fuel fs h (h.cells a).items with
+  | mk h1' o =>
+    rw [h1] at e
+    cases o with
+    | none => simp at e
+    | some its =>
+      simp only at e
+      have fr := transferFields_frame M fuel fs _ _ _ _ h1
+      have nc0 : NewClosed h.next h := fun _ ha hlt => absurd (Nat.lt_of_lt_of_le hlt ha) (Nat.lt_irrefl _)
+      have s := c19_ownedFields_fresh h.next M fuel hm fs ho h _ h1' its (Nat.le_refl _) nc0 pl h1
+      exact allocLike_fresh fr.1 s.1 _ s.2 e
 
 /-! ## helpers for `setattr` -/
 
